@@ -155,4 +155,149 @@ theorem render_writes_template (reg : Registry) (root : Json) (name : Option Str
   have : out'.text = (ets.map (·.2)).flatten := by simpa [Out.text] using ht
   by_cases hn : name.isNone = true <;> simp [hn, this]
 
+/-- a state update that keeps the state quiet is performed as written (the frame it would copy back is already in place) -/
+theorem quiet_modifyAux (rc0 rc : RC) (f : RC → RC) (out : Out) (hq : Quiet rc0 rc) (hf : Quiet rc0 (f rc)) :
+    RM.modifyAux f rc out = .ok () (f rc) out := by
+  rw [RM.modifyAux_apply]
+  have h1 : rc.blocks = (f rc).blocks := by rw [hq.blocks, hf.blocks]
+  have h2 : rc.disableEscape = (f rc).disableEscape := by
+    have a : rc.disableEscape = rc0.disableEscape := by rw [hq]
+    have b : (f rc).disableEscape = rc0.disableEscape := by rw [hf]
+    rw [a, b]
+  have h3 : rc.indentString = (f rc).indentString := by rw [hq.indent, hf.indent]
+  have h4 : rc.pbStack = (f rc).pbStack := by
+    have a : rc.pbStack = rc0.pbStack := by rw [hq]
+    have b : (f rc).pbStack = rc0.pbStack := by rw [hf]
+    rw [a, b]
+  have h5 : rc.pbBinding = (f rc).pbBinding := by
+    have a : rc.pbBinding = rc0.pbBinding := by rw [hq]
+    have b : (f rc).pbBinding = rc0.pbBinding := by rw [hf]
+    rw [a, b]
+  rw [h1, h2, h3, h4, h5]
+
+theorem Quiet.template {rc0 rc : RC} (h : Quiet rc0 rc) : rc.currentTemplate = rc0.currentTemplate := by rw [h]
+
+theorem Quiet.setTemplate {rc0 rc : RC} (h : Quiet rc0 rc) : Quiet rc0 { rc with currentTemplate := rc0.currentTemplate } := by
+  unfold Quiet at *
+  rw [h]
+
+
+/-- a template of ONE text element (the body of a block as compile2 stores it), rendered from a quiet state: the text is
+    written, the template name is handed over and back, the state stays quiet -/
+theorem render_text_template (reg : Registry) (root : Json) (rc0 rcS : RC) (out : Out) (s : Str) (lc : Nat × Nat) (fuel : Nat)
+    (hi : rc0.indentString = none) (hct : rc0.currentTemplate = none) (hq : Quiet rc0 rcS) (hf : out.failAt = none) :
+    ∃ rc2 out2, renderTemplate reg root (fuel + 3) (Tmpl.empty.pushElement (.raw s) lc.1 lc.2) rcS out = .ok () rc2 out2
+      ∧ Quiet rc0 rc2 ∧ out2.failAt = none ∧ out2.text = out.text ++ s := by
+  have hqB : Quiet rc0 { rcS with currentTemplate := none } := by
+    have := Quiet.setTemplate hq
+    rw [hct] at this
+    exact this
+  obtain ⟨rc2, out2, hw, hq2, hf2, ht2⟩ := indentAwareWrite_quiet rc0 hi s _ out hqB hf
+  have hmA := quiet_modifyAux rc0 rcS (fun r => { r with currentTemplate := (Tmpl.empty.pushElement (.raw s) lc.1 lc.2).name }) out hq hqB
+  have hq3 : Quiet rc0 { rc2 with currentTemplate := rcS.currentTemplate } := by
+    have := Quiet.setTemplate hq2
+    rw [← Quiet.template hq] at this
+    exact this
+  have hmB := quiet_modifyAux rc0 rc2 (fun r => { r with currentTemplate := rcS.currentTemplate }) out2 hq2 hq3
+  refine ⟨_, out2, ?_, hq3, hf2, ht2⟩
+  simp only [renderTemplate, RM.bind_def, RM.bnd_apply, RM.get_apply, hmA]
+  simp only [Tmpl.empty, Tmpl.pushElement, Tmpl.name, Tmpl.elements, Tmpl.mapping, List.nil_append, renderElems,
+    renderElem, RM.bind_def, RM.bnd_apply, RM.mapErr, hw, RM.pure_def, RM.ret_apply, Option.isNone_none]
+  simp only [↓reduceIte]
+  exact hmB
+
+
+end Hbs
+
+namespace Hbs
+open RM
+
+/-! ### elements that need more fuel than a constant: loops -/
+
+/-- like `WritesText`, with `K` units of fuel on top of any amount -/
+def WritesTextK (K : Nat) (reg : Registry) (root : Json) (rc0 : RC) (e : Elem) (txt : Str) : Prop :=
+  ∀ (fuel : Nat) (rc : RC) (out : Out), Quiet rc0 rc → out.failAt = none →
+    ∃ rc' out', renderElem reg root (fuel + K) e rc out = .ok () rc' out' ∧ Quiet rc0 rc' ∧ out'.failAt = none
+      ∧ out'.text = out.text ++ txt
+
+theorem WritesText.toK {reg : Registry} {root : Json} {rc0 : RC} {e : Elem} {txt : Str} (h : WritesText reg root rc0 e txt) (K : Nat)
+    (hK : 6 ≤ K) : WritesTextK K reg root rc0 e txt := by
+  intro fuel rc out hq hf
+  obtain ⟨d, rfl⟩ := Nat.exists_eq_add_of_le hK
+  have := h (fuel + d) rc out hq hf
+  rwa [show fuel + d + 6 = fuel + (6 + d) by omega] at this
+
+theorem renderElems_writesK (K : Nat) (reg : Registry) (root : Json) (rc0 : RC) (tname : Option Str) (ets : List (Elem × Str))
+    (hw : ∀ p ∈ ets, WritesTextK K reg root rc0 p.1 p.2) :
+    ∀ (fuel : Nat) (mapping : List (Nat × Nat)) (rc : RC) (out : Out), ets.length + K + 2 ≤ fuel → Quiet rc0 rc → out.failAt = none →
+      ∃ rc' out', renderElems reg root fuel tname (ets.map (·.1)) mapping rc out = .ok () rc' out' ∧ Quiet rc0 rc'
+        ∧ out'.failAt = none ∧ out'.text = out.text ++ (ets.map (·.2)).flatten := by
+  induction ets with
+  | nil =>
+    intro fuel mapping rc out hfuel hq hf
+    obtain ⟨f, rfl⟩ : ∃ f, fuel = f + 1 := ⟨fuel - 1, by simp at hfuel; omega⟩
+    exact ⟨rc, out, by simp [renderElems], hq, hf, by simp⟩
+  | cons p ets ih =>
+    intro fuel mapping rc out hfuel hq hf
+    obtain ⟨f, rfl⟩ : ∃ f, fuel = f + K + 1 := ⟨fuel - K - 1, by simp at hfuel; omega⟩
+    obtain ⟨rc1, out1, h1, hq1, hf1, ht1⟩ := hw p (by simp) f rc out hq hf
+    obtain ⟨rc2, out2, h2, hq2, hf2, ht2⟩ := ih (fun q hq' => hw q (by simp [hq'])) (f + K) (mapping.drop 1) rc1 out1
+      (by simp at hfuel ⊢; omega) hq1 hf1
+    refine ⟨rc2, out2, ?_, hq2, hf2, ?_⟩
+    · simp only [List.map_cons, renderElems, RM.bind_def, RM.bnd_apply, RM.mapErr, h1, h2]
+    · rw [ht2, ht1]; simp
+
+/-- a template all of whose elements write a known text – each within `K` extra units of fuel – writes their concatenation -/
+theorem render_writes_templateK (K : Nat) (reg : Registry) (root : Json) (name : Option Str) (ets : List (Elem × Str)) (m : List (Nat × Nat))
+    (rc : RC) (hlen : ets.length + K + 6 ≤ renderFuel)
+    (hw : ∀ p ∈ ets, WritesTextK K reg root { rc with currentTemplate := name } p.1 p.2) :
+    runRM (renderTemplate reg root renderFuel (.mk name (ets.map (·.1)) m)) rc {} = .ok (ets.map (·.2)).flatten := by
+  obtain ⟨f, hf⟩ : ∃ f, renderFuel = f + 1 := ⟨renderFuel - 1, by decide⟩
+  obtain ⟨rc', out', h, _, _, ht⟩ := renderElems_writesK K reg root { rc with currentTemplate := name } name ets hw f m
+    { rc with currentTemplate := name } {} (by omega) (Quiet.refl _) rfl
+  unfold runRM
+  rw [hf]
+  simp only [renderTemplate, RM.bind_def, RM.bnd_apply, RM.get_apply, RM.modifyAux_apply, Tmpl.name, Tmpl.elements, Tmpl.mapping, h, RM.pure_def]
+  have : out'.text = (ets.map (·.2)).flatten := by simpa [Out.text] using ht
+  by_cases hn : name.isNone = true <;> simp [hn, this]
+
+/-! ### the iteration of `each` over a one-text body -/
+
+/-- the loop of `each` over ANY list of items with a body of one text element: the text is written once per item, in order;
+    the state stays as it was up to the front block (the iteration variables) and the write flags -/
+theorem eachLoop_text (reg : Registry) (root : Json) (s : Str) (lc : Nat × Nat) (h : HelperI) (path : Option (List Str)) (len : Nat) :
+    ∀ (items : List (Nat × Option Str × Str × Json)) (fuel : Nat) (rcS : RC) (out : Out) (b : Block) (brest : List Block),
+      rcS.indentString = none → rcS.currentTemplate = none → rcS.blocks = b :: brest → out.failAt = none →
+      ∃ rc' out', eachLoop reg root (fuel + items.length + 4) (Tmpl.empty.pushElement (.raw s) lc.1 lc.2) h path len items rcS out = .ok () rc' out'
+        ∧ (∃ b', Quiet { rcS with blocks := b' :: brest } rc') ∧ out'.failAt = none
+        ∧ out'.text = out.text ++ (List.replicate items.length s).flatten := by
+  intro items
+  induction items with
+  | nil =>
+    intro fuel rcS out b brest hi hct hbl hf
+    refine ⟨rcS, out, by simp [eachLoop], ⟨b, ?_⟩, hf, by simp⟩
+    have : ({ rcS with blocks := b :: brest } : RC) = rcS := by rw [← hbl]
+    rw [this]; exact Quiet.refl _
+  | cons it rest ih =>
+    intro fuel rcS out b brest hi hct hbl hf
+    obtain ⟨i, key, rel, v⟩ := it
+    let rcA : RC := { rcS with blocks := eachIterBlock b h path i len key rel v :: brest }
+    have hmod : modifyFrontBlock (fun b => eachIterBlock b h path i len key rel v) rcS out = .ok () rcA out := by
+      simp [modifyFrontBlock, RM.modify_apply, hbl, rcA]
+    obtain ⟨rc2, out2, hbody, hq2, hf2, ht2⟩ := render_text_template reg root rcA rcA out s lc (fuel + rest.length + 1) hi hct (Quiet.refl _) hf
+    have hi2 : rc2.indentString = none := by rw [hq2.indent]; exact hi
+    have hct2 : rc2.currentTemplate = none := by rw [Quiet.template hq2]; exact hct
+    have hb2 : rc2.blocks = eachIterBlock b h path i len key rel v :: brest := by rw [hq2.blocks]
+    obtain ⟨rc3, out3, hloop, ⟨b3, hq3⟩, hf3, ht3⟩ := ih fuel rc2 out2 _ brest hi2 hct2 hb2 hf2
+    refine ⟨rc3, out3, ?_, ⟨b3, ?_⟩, hf3, ?_⟩
+    · rw [show fuel + ((i, key, rel, v) :: rest).length + 4 = (fuel + rest.length + 4) + 1 by simp [List.length_cons]; omega]
+      simp only [eachLoop, RM.bind_def, RM.bnd_apply, hmod]
+      rw [show fuel + rest.length + 4 = fuel + rest.length + 1 + 3 by omega, hbody]
+      simp only []
+      rw [show fuel + rest.length + 1 + 3 = fuel + rest.length + 4 by omega, hloop]
+    · -- rc3 is rc2 with another front block and flags; rc2 is rcA up to flags; rcA is rcS with another front block
+      unfold Quiet at hq3 hq2 ⊢
+      rw [hq3, hq2]
+    · rw [ht3, ht2]; simp [List.replicate_succ]
+
 end Hbs
